@@ -30,8 +30,9 @@ pub fn main(args: &[String]) {
     let mut r = StdRng::seed_from_u64(seed);
     match args[0].as_str() {
         "render" => {
-            for _ in 0..n {
-                let f = render_file(&mut r, &[], 0, true);
+            for i in 0..n {
+                // one file in a hundred is large (40-90 KB)
+                let f = render_file(&mut r, &[], if i % 100 == 50 { 1 } else { 0 }, true);
                 let parsed = parse_mem(&f.text);
                 out.emit(json!({"ev": "File", "items": f.items, "parsed": parsed, "text": String::from_utf8_lossy(&f.text)}));
             }
@@ -304,7 +305,6 @@ fn gen_rdata(r: &mut StdRng, eff_class: u16, pool: &[Labels], origin: &Option<La
 /// Renders one file. `includes`: (index, path text relative to this file) of files this one may include.
 /// `first`: the top file (starts with an empty context).
 pub fn render_file(r: &mut StdRng, includes: &[(usize, String)], depth_hint: usize, first: bool) -> Rendered {
-    let _ = depth_hint;
     let crlf = r.gen_bool(0.2);
     let eol: &[u8] = if crlf { b"\r\n" } else { b"\n" };
     let mut text: Vec<u8> = Vec::new();
@@ -314,7 +314,8 @@ pub fn render_file(r: &mut StdRng, includes: &[(usize, String)], depth_hint: usi
     let (mut has_prev, mut has_ttl_src, mut has_class) = (false, false, false);
     let mut prev_class: u16 = 1;
     let pool: Vec<Labels> = (0..6).map(|_| (0..r.gen_range(1..4)).map(|_| rand_label(r)).collect()).collect();
-    let nitems = if first { r.gen_range(3..25) } else { r.gen_range(1..8) };
+    // depth_hint > 0 asks for a file well beyond the parser's 16 KiB read buffer (fields straddling refill points)
+    let nitems = if depth_hint > 0 { r.gen_range(600..1300) } else if first { r.gen_range(3..25) } else { r.gen_range(1..8) };
     let mut pending_includes: Vec<(usize, String)> = includes.to_vec();
     // deliberately broken file: the first record omits something that cannot be inherited
     let broken = first && includes.is_empty() && r.gen_bool(0.04);
